@@ -96,7 +96,8 @@ class Run:
         if rc != 0:
             self.notes.append("extractor build failed: " + out[-400:])
             return False
-        rc, out = sh([ex, "-repo", REPO, "-out", os.path.join(LEAN, "NV", "Gen")])
+        rc, out = sh([ex, "-repo", REPO, "-out", os.path.join(LEAN, "NV", "Gen"), "-for", self.pid,
+                      "-declared", os.path.join(VERIF, "extract", "declared_fresh.json")], cwd=REPO)
         self.extract_out = out
         for line in out.splitlines():
             if line.startswith("FALLBACK"):
@@ -206,9 +207,10 @@ class Run:
             open(os.path.join(src, "go.mod"), "w").write(gomod)
             shutil.copy(os.path.join(REPO, "go.sum"), os.path.join(src, "go.sum"))
             ov = {}
-            for f in glob.glob(os.path.join(VERIF, "overlay", "*_export.go")):
-                pkg = os.path.basename(f)[:-len("_export.go")].replace("__", "/")
-                ov[os.path.join(REPO, pkg, "zz_verif_export.go")] = f
+            for f in glob.glob(os.path.join(VERIF, "overlay", "*_export*.go")):
+                base = os.path.basename(f)
+                pkg, rest = base.split("_export", 1)      # <pkg>_export[_suffix].go
+                ov[os.path.join(REPO, pkg.replace("__", "/"), "zz_verif_export" + rest)] = f
             ovp = os.path.join(BUILD, "overlay.json")
             json.dump({"Replace": ov}, open(ovp, "w"))
             self.overlay = ovp
@@ -216,6 +218,12 @@ class Run:
         if rc != 0:
             self.harness_err = out
             return False
+        if any(a.get("race") for a in self.spec.get("areas", [])):
+            with Lock("gobuild"):
+                rc, out = sh(["go", "build", "-race", "-tags", "verif", "-overlay", ovp, "-o", NVH + "-race", "."], cwd=src, timeout=1800)
+            if rc != 0:
+                self.harness_err = out
+                return False
         return True
 
     # ---------------------------------------------------------------- correspondence
@@ -236,7 +244,7 @@ class Run:
             d = os.path.join(self.rundir, name, "%02d" % k)
             shutil.rmtree(d, ignore_errors=True)
             os.makedirs(d)
-            cmd = [NVH, name, "-tier", self.tier, "-out", d] + args + area.get("args", [])
+            cmd = [NVH + ("-race" if area.get("race") else ""), name, "-tier", self.tier, "-out", d] + args + area.get("args", [])
             procs.append((label, d, subprocess.Popen(cmd, stdout=subprocess.PIPE, stderr=subprocess.STDOUT, text=True, env=GOENV)))
             if len(procs) % 16 == 0:
                 for _, _, p in procs:
